@@ -8,6 +8,7 @@
 4. verdict, evidence/<id>.json, replay file on violation
 """
 import fcntl
+import subprocess
 import json
 import os
 import re
@@ -68,8 +69,13 @@ def build_model():
 
 
 def vo_fresh(v_path):
+    """the compiled file exists and make considers it up to date with everything it depends on
+    (a regenerated gen/*.v makes every dependent proof stale until it compiles again)"""
     vo = v_path[:-2] + '.vo'
-    return os.path.exists(vo) and os.path.getmtime(vo) >= os.path.getmtime(v_path)
+    if not os.path.exists(vo):
+        return False
+    r = subprocess.run(['make', '-q', os.path.relpath(vo, COQ)], cwd=COQ, stdout=subprocess.DEVNULL, stderr=subprocess.DEVNULL)
+    return r.returncode == 0
 
 
 def theorem_names(v_path):
@@ -112,24 +118,24 @@ def proof_status(prop, make_log):
 DECISIVE = {
     'C01': {'prop-rt-value', 'prop-rt-n', 'prop-rt-fail', 'panic', 'crash', 'corr-encerr', 'corr-sizepanic'},
     'C02': {'corr-dispatch', 'corr-bytes', 'prop-malformed', 'panic', 'crash', 'corr-encerr'},
-    'C03': {'corr-value', 'corr-n', 'corr-err-vs-ok', 'panic', 'crash'},
+    'C03': {'corr-value', 'corr-n', 'corr-err-vs-ok', 'ref-value', 'ref-n', 'ref-err-vs-ok', 'ref-ok-vs-err', 'panic', 'crash'},
     'C04': {'prop-size', 'prop-short-accepted', 'prop-fit-rejected', 'prop-guard', 'panic', 'crash', 'corr-sizepanic'},
-    'C05': {'panic', 'crash', 'corr-ok-vs-err', 'corr-err-vs-ok', 'prop-alloc', 'prop-time'},
+    'C05': {'panic', 'crash', 'corr-ok-vs-err', 'corr-err-vs-ok', 'ref-err-vs-ok', 'ref-ok-vs-err', 'prop-alloc', 'prop-time'},
     'C06': {'prop-memory', 'prop-memory-changed', 'corr-span', 'corr-value', 'prop-input-alias', 'panic', 'crash'},
-    'C07': {'corr-value', 'corr-n', 'corr-err-vs-ok', 'corr-ok-vs-err', 'corr-bytes', 'corr-size', 'prop-rt-value', 'prop-size', 'prop-invalid-size',
+    'C07': {'ref-value', 'ref-err-vs-ok', 'ref-ok-vs-err', 'corr-value', 'corr-n', 'corr-err-vs-ok', 'corr-ok-vs-err', 'corr-bytes', 'corr-size', 'prop-rt-value', 'prop-size', 'prop-invalid-size',
             'prop-invalid-enc', 'prop-invalid-dec', 'prop-valid-rejected', 'corr-errfield', 'corr-errclass', 'panic', 'crash'},
     'C08': {'corr-value', 'corr-n', 'corr-err-vs-ok', 'corr-ok-vs-err', 'corr-bytes', 'corr-size', 'prop-rt-value', 'prop-size', 'prop-deadlock',
             'corr-descmap', 'panic', 'crash', 'race'},
     'C14': {'prop-nocopy-set', 'prop-nocopy-cap', 'prop-nocopy-view', 'prop-input-alias', 'prop-memory', 'corr-value', 'panic', 'crash'},
     'C17': {'prop-legacy', 'corr-value', 'corr-n', 'corr-err-vs-ok', 'corr-ok-vs-err', 'corr-bytes', 'corr-size', 'prop-rt-value', 'prop-size', 'panic', 'crash'},
     'C18': {'prop-allocs', 'panic', 'crash'},
-    'C09': {'corr-bitset', 'corr-err-vs-ok', 'corr-ok-vs-err', 'corr-errclass', 'corr-errfield', 'corr-bytes', 'panic', 'crash'},
-    'C10': {'corr-bytes', 'corr-value', 'corr-size', 'prop-rt-value', 'panic', 'crash'},
-    'C11': {'corr-unknown', 'corr-value', 'corr-bytes', 'corr-size', 'prop-size', 'corr-hop', 'panic', 'crash'},
+    'C09': {'ref-err-vs-ok', 'ref-ok-vs-err', 'ref-errfield', 'ref-errclass', 'corr-bitset', 'corr-err-vs-ok', 'corr-ok-vs-err', 'corr-errclass', 'corr-errfield', 'corr-bytes', 'panic', 'crash'},
+    'C10': {'ref-value', 'corr-bytes', 'corr-value', 'corr-size', 'prop-rt-value', 'panic', 'crash'},
+    'C11': {'ref-value', 'ref-err-vs-ok', 'corr-unknown', 'corr-value', 'corr-bytes', 'corr-size', 'prop-size', 'corr-hop', 'panic', 'crash'},
     'C12': {'corr-resolve', 'corr-resolve-rejected', 'corr-resolve-accepted', 'corr-bytes', 'corr-value', 'prop-rt-value', 'panic', 'crash', 'universe-mismatch'},
     'C13': {'corr-resolve-accepted', 'prop-invalid-size', 'prop-invalid-enc', 'prop-invalid-dec', 'prop-valid-rejected', 'prop-badarg', 'panic', 'crash'},
     'C15': {'corr-errclass', 'corr-err-vs-ok', 'corr-ok-vs-err', 'panic', 'crash'},
-    'C16': {'prop-guard', 'prop-mutated', 'prop-repeat', 'prop-input-mutated', 'panic', 'crash'},
+    'C16': {'prop-short-accepted', 'prop-guard', 'prop-mutated', 'prop-repeat', 'prop-input-mutated', 'panic', 'crash'},
 }
 
 
@@ -260,7 +266,10 @@ def standard_check(prop, tier, seed, widen=False, gen=None, race=False):
     for cid, r in res.items():
         if r[0] == 'ok':
             continue
-        tags = r[1]
+        # observations that concern another property (prop-* tags not decisive here) are not this check's business
+        tags = [t for t in r[1] if not t.startswith('prop-') or t in dec]
+        if not tags:
+            continue
         failures.append({'id': cid, 'case': cd[cid], 'tags': tags, 'detail': r[2], 'obs': obs.get(cid, ''),
                          'decisive': bool(set(tags) & dec), 'session': session_of(sess_ids, cid)})
     if UNIVERSE_STATUS.get('MISMATCH') is not None or 'ENV-NOT-OK' in UNIVERSE_STATUS:
